@@ -140,3 +140,38 @@ Proof.
   hstep; [guard_upd3|extra_nz|].
   hstep; [exact I|split; exact I|exact I].
 Qed.
+
+(* ---- the current tree ---------------------------------------------------------------------------------- *)
+(* F-1 is fixed: the witness history runs on the poll back-end of the current tree *)
+Lemma w_reregister_current_ok : exists st outs, pp_run_current pp_init w_reregister = Ok (st, outs).
+Proof. vm_compute. eexists _, _. reflexivity. Qed.
+
+(* stale within the batch: channels 0 and 1 are both readable; the read callback of 0 disables 1 *)
+Definition w_two : list op := [New 0 0; New 1 1; Upd UEnableR 0; Upd UEnableR 1].
+Definition h_stale : handlers :=
+  fun c k => match c, k with 0, CbRead => [Upd UDisableAll 1] | _, _ => [] end.
+Definition all_run : nat -> bool := fun _ => true.
+Definition readyIN : nat -> N := fun _ => POLLIN.
+
+Lemma w_two_ok : hist_ok sclean spec0 w_two.
+Proof.
+  unfold w_two.
+  hstep; [reflexivity|exact I|].
+  hstep; [reflexivity|exact I|].
+  hstep; [guard_upd|clean_by_compute|].
+  hstep; [guard_upd|clean_by_compute|].
+  exact I.
+Qed.
+
+(* the loop's own channels as the constructors leave them: timer channel 0 on descriptor 3, wake-up
+   channel 1 on descriptor 4 *)
+Definition w_loop_init : list op := [New 0 3; Upd UEnableR 0; New 1 4; Upd UEnableR 1].
+Lemma w_loop_init_ok : hist_ok sclean spec0 w_loop_init.
+Proof.
+  unfold w_loop_init.
+  hstep; [reflexivity|exact I|].
+  hstep; [guard_upd|clean_by_compute|].
+  hstep; [reflexivity|exact I|].
+  hstep; [guard_upd|clean_by_compute|].
+  exact I.
+Qed.
